@@ -458,8 +458,12 @@ fn writer_tour(case: &Value) {
     use vrp_pragmatic::format::problem::PragmaticProblem;
     use vrp_pragmatic::format::solution::{write_pragmatic, PragmaticOutputType};
     let problem_json = case["problem"].to_string();
-    let matrix_json = case["matrix"].to_string();
-    let problem = Arc::new((problem_json, vec![matrix_json]).read_pragmatic().unwrap_or_else(|e| setup_failed("cannot read problem", e)));
+    // time-dependent routing: several matrices of one profile, each with its timestamp
+    let matrices: Vec<String> = match case["matrices"].as_array() {
+        Some(ms) => ms.iter().map(|m| m.to_string()).collect(),
+        None => vec![case["matrix"].to_string()],
+    };
+    let problem = Arc::new((problem_json, matrices).read_pragmatic().unwrap_or_else(|e| setup_failed("cannot read problem", e)));
     let actor = problem.fleet.actors[0].clone();
     let mut rc = RouteContext::new(actor);
     for id in case["order"].as_array().unwrap() {
